@@ -129,13 +129,17 @@ class FinamInterp(Interp):
         if isinstance(obj, str) or (isinstance(obj, Sym) and obj.op in ("fstr", "str", "join")):
             return Sym("strmethod", attr)
         if isinstance(obj, Obj) and attr == "__class__":
-            return Obj(label="class", fields={"__name__": obj.label})
+            return Obj(label="class", fields={"__name__": obj.label, "__qualname__": obj.label, "__module__": "finam"})
         if isinstance(obj, Sym) and obj.op == "ext":
             return Sym("ext", f"{obj.args[0]}.{attr}")
         return super().get_attr(obj, attr, node, mod)
 
     def call_hook(self, fv, args, kwargs, node, mod):
         if isinstance(fv, Sym):
+            if fv.op == "attrgetter" and len(args) == 1:
+                return self.attr(args[0], fv.args[0], node, mod)
+            if fv.op == "itemgetter" and len(args) == 1:
+                return self.get_item(args[0], fv.args[0], node)
             if fv.op == "logcall":
                 return None
             if fv.op == "strmethod":
@@ -175,6 +179,30 @@ class FinamInterp(Interp):
             return Deque(self.iterate(args[0], node) if args else [])
         if name in ("islice", "itertools.islice") and args and isinstance(args[0], (list, tuple)) and all(a is None or isinstance(a, int) for a in args[1:]):
             return list(args[0])[slice(*args[1:])]
+        if name in ("reduce", "functools.reduce") and len(args) >= 2 and isinstance(args[0], Closure):
+            seq = list(self.iterate(args[1], node))
+            if len(args) > 2:
+                seq = [args[2]] + seq
+            if not seq:
+                self.on_raise(Sym("exc", "TypeError", "reduce() of empty iterable with no initial value"), node)
+            acc = seq[0]
+            for x in seq[1:]:
+                acc = self.call(args[0], [acc, x], {}, node, None)
+            return acc
+        if name in ("takewhile", "itertools.takewhile", "dropwhile", "itertools.dropwhile") and len(args) == 2 and isinstance(args[0], Closure):
+            out, taking = [], True
+            for x in self.iterate(args[1], node):
+                if taking and not self.truth(self.call(args[0], [x], {}, node, None), node):
+                    taking = False
+                    if name.endswith("takewhile"):
+                        break
+                if taking == name.endswith("takewhile"):
+                    out.append(x)
+            return out
+        if name in ("attrgetter", "operator.attrgetter") and len(args) == 1 and isinstance(args[0], str) and "." not in args[0]:
+            return Sym("attrgetter", args[0])
+        if name in ("itemgetter", "operator.itemgetter") and len(args) == 1:
+            return Sym("itemgetter", args[0])
         if name in ("reduce", "functools.reduce") and len(args) >= 2 and isinstance(args[0], Sym) and args[0].op == "ext" \
                 and args[0].args[0] in ("operator.add", "operator.mul", "operator.sub", "add", "mul") and isinstance(args[1], (list, tuple)):
             op = {"add": ast.Add(), "mul": ast.Mult(), "sub": ast.Sub()}[args[0].args[0].split(".")[-1]]
